@@ -157,9 +157,10 @@ structure State where
   insts : List Inst       -- StoredInstances, in container order
   cap : Nat
   cutoff : Nat
+  running : Option Nat    -- ghost: height of the most recently STARTED instance (the runner's running instance); never read by `step`
 deriving Repr, DecidableEq
 
-def init (cap cutoff : Nat) : State := { height := 0, insts := [], cap := cap, cutoff := cutoff }
+def init (cap cutoff : Nat) : State := { height := 0, insts := [], cap := cap, cutoff := cutoff, running := none }
 
 inductive Op where
   | start (h : Nat)            -- StartNewInstance(h, valid value)
@@ -212,7 +213,7 @@ def step (s : State) : Op → State × Out
       let l := addNew s.cap s.insts { height := h, round := Gen.timer_FirstRound, decided := false, stopped := false }
       -- forceStopAllInstanceExceptCurrent
       let l := l.map (fun i => if i.height != h then { i with stopped := true } else i)
-      ({ s with height := h, insts := l }, ⟨.ok, 0, [(h, Gen.timer_FirstRound)]⟩)
+      ({ s with height := h, insts := l, running := some h }, ⟨.ok, 0, [(h, Gen.timer_FirstRound)]⟩)
   | .decide h r =>
     let l := match find s.insts h with
       | none => addNew s.cap s.insts { height := h, round := r, decided := true, stopped := false }
